@@ -13,6 +13,6 @@ one() {
   echo "$d violations=$nv $rules :: $last" >> /verif/seeded/matrix2.log
 }
 export -f one
-ls -d seeded/C*-m[3-6] | xargs -n1 basename | xargs -P $JOBS -I{} bash -c 'one {}'
+ls -d seeded/C*-m[1-6] | xargs -n1 basename | xargs -P $JOBS -I{} bash -c 'one {}'
 sort -o seeded/matrix2.log seeded/matrix2.log
 echo DONE
